@@ -138,6 +138,10 @@ func famSignFlow(tr *Trace, id *int, scratch, behaviours string) int {
 	}
 	n := 0
 	for _, ln := range strings.Split(strings.TrimSpace(string(b)), "\n") {
+		if strings.Contains(ln, "\"ops\"") { // a history of KeyHist.tla
+			n += replayKeyHist(tr, id, dir, root, ln)
+			continue
+		}
 		var bh signBehaviour
 		must(json.Unmarshal([]byte(ln), &bh))
 		a := bh.Argv
@@ -253,4 +257,89 @@ func famSignFlow(tr *Trace, id *int, scratch, behaviours string) int {
 		os.Remove(kp)
 	}
 	return n
+}
+
+// ---- KeyHist.tla: histories of key file edits and packagings within this process
+
+type keyHistBehaviour struct {
+	Fmt     string   `json:"fmt"`
+	Ops     []string `json:"ops"`
+	Signers []string `json:"signers"`
+}
+
+var keyHistKeys = map[bool][]rotKey{} // pgp? -> keys A, B (generated once)
+
+func replayKeyHist(tr *Trace, id *int, dir, root, ln string) int {
+	var bh keyHistBehaviour
+	must(json.Unmarshal([]byte(ln), &bh))
+	f, method := bh.Fmt, ""
+	if bh.Fmt == "debsign" || bh.Fmt == "dpkg-sig" {
+		f, method = "deb", bh.Fmt
+	}
+	pgp := f != "apk"
+	if keyHistKeys[pgp] == nil {
+		if pgp {
+			keyHistKeys[pgp] = []rotKey{newPGPKey("hist-a"), newPGPKey("hist-b")}
+		} else {
+			keyHistKeys[pgp] = []rotKey{newRSAKey(), newRSAKey()}
+		}
+	}
+	keys := keyHistKeys[pgp]
+	kp := filepath.Join(dir, "hist-"+bh.Fmt+".key")
+	os.Remove(kp)
+	c := baseCfg("histpkg")
+	c.Entries = []Entry{{Type: "file", Src: "src/bin", Dst: "/usr/bin/tool"}}
+	switch f {
+	case "deb":
+		c.DebSigKey, c.DebSigMethod = kp, method
+	case "rpm":
+		c.RpmSigKey = kp
+	case "apk":
+		c.ApkSigKey, c.ApkSigKeyName = kp, "hist"
+	}
+	y := c.YAML(root)
+	obs := make([]any, 0, len(bh.Ops))
+	for _, op := range bh.Ops {
+		switch op {
+		case "writeA":
+			must(os.WriteFile(kp, keys[0].priv, 0o600))
+			obs = append(obs, "")
+		case "writeB":
+			must(os.WriteFile(kp, keys[1].priv, 0o600))
+			obs = append(obs, "")
+		case "remove":
+			os.Remove(kp)
+			obs = append(obs, "")
+		case "package":
+			who := "failure"
+			if cfg, err := parseCfg(y); err == nil {
+				if b, _, err := buildFormat(&cfg, f); err == nil {
+					w := sigOf(f, method, b, keys)
+					switch {
+					case w == "key1" || (pgp && contains(keys[0].ids, w)):
+						who = "A"
+					case w == "key2" || (pgp && contains(keys[1].ids, w)):
+						who = "B"
+					default:
+						who = "other:" + w
+					}
+				}
+			}
+			obs = append(obs, who)
+		}
+	}
+	os.Remove(kp)
+	*id++
+	tr.Emit(*id, []M{{"ev": "case", "id": *id, "fam": "keyhist"},
+		{"ev": "keyhist", "fmt": bh.Fmt, "ops": strs(bh.Ops), "tlc": strs(bh.Signers), "obs": obs}, {"ev": "endcase"}})
+	return 1
+}
+
+func contains(l []string, x string) bool {
+	for _, y := range l {
+		if y == x {
+			return true
+		}
+	}
+	return false
 }
